@@ -13,6 +13,7 @@ pub mod c03;
 pub mod c15;
 pub mod c16;
 pub mod c14;
+pub mod c05;
 
 pub fn meta(id: &str, tier: &str) -> Option<CheckMeta> {
     match id {
@@ -28,6 +29,7 @@ pub fn meta(id: &str, tier: &str) -> Option<CheckMeta> {
         "C15" => Some(c15::meta(tier)),
         "C16" => Some(c16::meta(tier)),
         "C14" => Some(c14::meta(tier)),
+        "C05" => Some(c05::meta(tier)),
         _ => None,
     }
 }
@@ -60,6 +62,7 @@ pub fn worker(ctx: &Ctx, res: &mut ShardResult) {
         "C15" => c15::worker(ctx, res),
         "C16" => c16::worker(ctx, res),
         "C14" => c14::worker(ctx, res),
+        "C05" => c05::worker(ctx, res),
         _ => panic!("unknown check"),
     }
 }
@@ -82,6 +85,7 @@ pub fn replay(path: &str) -> i32 {
         "C15" => c15::replay(&v["case"]),
         "C16" => c16::replay(&v["case"]),
         "C14" => c14::replay(&v["case"]),
+        "C05" => c05::replay(&v["case"]),
         _ => vec![format!("no replayer for {}", id)],
     };
     let _ = json!(null);
